@@ -792,6 +792,9 @@ with PolarsImpl.impl_store.impl_manager as impl:
 
     @impl(ops.clip)
     def _clip(x, lower, upper, *, _sig):
+        if _sig[0].is_int() and any(t.is_float() for t in _sig[1:]):
+            # polars would convert the bounds to the integer type of `x`
+            x = x.cast(pl.Float64)
         if _sig[0].is_int() or _sig[0].is_float():
             return x.clip(lower, upper)
         # polars' clip only supports numeric types
